@@ -15,7 +15,7 @@ pid, tag, letter = sys.argv[1:4]
 flags = ' '.join(sys.argv[4:])
 wt = f'/tmp/wt/{pid}-{tag}'
 out = f'/verif/seeded/{pid}-mut{letter}'
-VH = '/tmp/vh'
+VH = f'/tmp/vh_{pid}_{tag}'      # a private scratch copy of /verif per harvest: several may run at once
 
 
 def sh(cmd, timeout=1800):
@@ -90,6 +90,7 @@ if os.path.exists(f'{out}/meta.json'):
     old = json.load(open(f'{out}/meta.json'))
 old.update(meta)
 json.dump(old, open(f'{out}/meta.json', 'w'), indent=1)
+shutil.rmtree(VH, ignore_errors=True)
 print(f'{pid}-mut{letter}: demo_ok={demo_ok} tests_ok={tests_ok} detected={fired} keys={keys[0] if keys else None} wall={dt:.0f}s')
 if not fired:
     print(o[-1200:])
